@@ -155,9 +155,13 @@ def seeders(lines):
     for sc in units + procs:
         yield ("unknown_module", ins(sc["start"] + 1, "  use no_such_module_xyz"), {sc["start"] + 1}, r'Module "no_such_module_xyz" not found in project', 3, {}, [])
     # 5 type defined in the project but not accessible
+    legit = ["subroutine orphan_user()", "  use orphan_mod", "  implicit none", "  type(orphan_t) :: legit_use", "end subroutine orphan_user"]
     for sc in procs + [u for u in units if u["kind"] in ("program",)]:
-        yield ("type_not_accessible", ins(sc["spec"], "    type(orphan_t) :: qq_orphan"), {sc["spec"]}, r'Object "orphan_t" not found in scope', 1,
-               {"orphan.f90": ORPHAN}, [])
+        new = ins(sc["spec"], "    type(orphan_t) :: qq_orphan")
+        yield ("type_not_accessible", new, {sc["spec"]}, r'Object "orphan_t" not found in scope', 1, {"orphan.f90": ORPHAN}, [])
+        # the same type is legitimately used by another scope of the same file, before / after the seeded one
+        yield ("type_not_accessible", legit + new, {sc["spec"] + len(legit)}, r'Object "orphan_t" not found in scope', 1, {"orphan.f90": ORPHAN}, [])
+        yield ("type_not_accessible", new + legit, {sc["spec"]}, r'Object "orphan_t" not found in scope', 1, {"orphan.f90": ORPHAN}, [])
     # 6 dummy argument without declaration
     for p in procs:
         args = re.search(r"\(([^)]*)\)", lines[p["start"]])
